@@ -3,10 +3,16 @@
 package server
 
 import (
+	"net"
 	"os"
 	"sync"
+	"sync/atomic"
+	"time"
 
+	"github.com/XiaoMi/Gaea/backend"
 	"github.com/XiaoMi/Gaea/models"
+	"github.com/XiaoMi/Gaea/util"
+	"github.com/XiaoMi/Gaea/util/sync2"
 )
 
 // White-box helpers for the /verif harness (overlay only).
@@ -71,3 +77,51 @@ func VerifAllNamespaces(m *Manager) []*Namespace {
 	}
 	return out
 }
+
+// VerifNewServer builds a Server the way NewServer does but without a real
+// listener, admin HTTP server or log files. It must be called inside the
+// simulation (its time wheel goroutine belongs to the run).
+func VerifNewServer(m *Manager, sessionTimeoutSec int, authPlugin, serverVersion, listenAddr string, l interface {
+	Accept() (net.Conn, error)
+	Close() error
+	Addr() net.Addr
+}) (*Server, error) {
+	s := new(Server)
+	cfg := &models.Proxy{SessionTimeout: sessionTimeoutSec, ServerVersion: serverVersion, AuthPlugin: authPlugin, ProxyAddr: listenAddr, ProtoType: "tcp"}
+	s.ServerConfig = cfg
+	s.manager = m
+	s.ServerVersion = util.CompactServerVersion(cfg.ServerVersion)
+	s.ServerVersionCompareStatus = util.NewVersionCompareStatus(cfg.ServerVersion)
+	s.AuthPlugin = cfg.AuthPlugin
+	s.closed = sync2.NewAtomicBool(false)
+	s.listener = l
+	s.sessionTimeout = time.Duration(sessionTimeoutSec) * time.Second
+	tw, err := util.NewTimeWheel(timeWheelUnit, timeWheelBucketsNum)
+	if err != nil {
+		return nil, err
+	}
+	s.tw = tw
+	s.tw.Start()
+	return s, nil
+}
+
+// VerifServe runs one client connection through the real onConn (handshake, command loop, close).
+func VerifServe(s *Server, c net.Conn) { s.onConn(c) }
+
+// VerifStopServer stops the time wheel goroutine.
+func VerifStopServer(s *Server) { s.tw.Stop() }
+
+// VerifResetConnID makes client connection ids start from the same value in every run.
+func VerifResetConnID() { atomic.StoreUint32(&baseConnID, 10000) }
+
+// VerifNamespaces returns the namespaces of the active generation.
+func VerifNamespaces(m *Manager) map[string]*Namespace {
+	current, _, _ := m.switchIndex.Get()
+	return m.namespaces[current].namespaces
+}
+
+// VerifSlices returns the slices of a namespace.
+func VerifSlices(n *Namespace) map[string]*backend.Slice { return n.slices }
+
+// VerifConnID orders sessions deterministically (time wheel map keys).
+func (cc *Session) VerifConnID() uint32 { return cc.c.GetConnectionID() }
